@@ -5,7 +5,7 @@ import subprocess
 import sys
 from concurrent.futures import ThreadPoolExecutor
 
-from harness.common import Prop, canon, VERIF, evaluate
+from harness.common import Prop, canon, VERIF, evaluate, scale
 from harness import gen_build as G
 from harness import gen_models as M
 
@@ -76,7 +76,7 @@ class C08(Prop):
         return strip(c)
 
     def streams(self, rng, tier):
-        n = 40 if tier == 'quick' else 400
+        n = 40 if tier == 'quick' else scale(800)
         self._cases = [self.gen_named_case(rng) for _ in range(n)]
         yield 'in-process', self._cases
         md5 = []
